@@ -53,6 +53,8 @@ Owed(c, p) == Get(Get(owed, c, <<>>), p, 0)
 Hosts(n, mount, t) == \E s \in subs : conn[s.c].n = n /\ Registered(s.c) /\ conn[s.c].mount = mount /\ T!Matches(s.f, t)
 Destinations(p) == {n \in Dom(logs) : Hosts(n, msgs[p].mount, msgs[p].t)}
 InLog(n, p) == p \in Range(logs[n])
+\* an offender (C18) may hold subscriptions the specification does not know of: its node may be a destination of anything
+HostileOn(n) == \E c \in Dom(conn) : conn[c].hostile /\ conn[c].n = n
 StoredEverywhere(p) == \A n \in Destinations(p) : InLog(n, p)
 \* what every connected session is owed for message p, fixed when p is released for distribution
 NeedOf(p) == [c \in {x \in Dom(conn) : Registered(x) /\ NMatch(x, p) > 0} |-> NMatch(c, p)]
@@ -234,7 +236,7 @@ LogAppend ==
              /\ Ev.mount = m.mount /\ Ev.t = m.t                       \* stored under the tenant-prefixed topic
              /\ IF Ev.ok
                 THEN /\ ~InLog(Ev.n, Ev.p)                              \* at most once per node
-                     /\ (m.kind = "pub" => Hosts(Ev.n, m.mount, m.t))   \* only where a matching subscription is hosted
+                     /\ (m.kind = "pub" => Hosts(Ev.n, m.mount, m.t) \/ HostileOn(Ev.n))   \* only where a matching subscription is hosted
                      /\ Ev.off = Len(logs[Ev.n])
                      /\ logs' = Upd(logs, Ev.n, Append(logs[Ev.n], Ev.p))
                      /\ UNCHANGED msgs
